@@ -192,9 +192,8 @@ NomDns  == [qr |-> "query", opcode |-> "query", qd |-> "one", opt |-> "one", opt
 
 Bases(e) ==
   CASE e = "station.ingest" -> {WithTransport([NomMsg EXCEPT !.rr = x], t) : x \in {"absent", "present"}, t \in RealTransports}
-    [] e = "regproc"        -> {WithTransport([NomProc @@ NomMsg EXCEPT !.op = o], t) : o \in OpC, t \in {"min", "prefix", "dtls"}}
-    [] e = "api"            -> {WithTransport([NomHttp @@ NomMsg EXCEPT !.endpoint = ep, !.clientconf = cc], t) :
-                                   ep \in EndpointC, cc \in {"equal", "newer"}, t \in {"min", "prefix"}}
+    [] e = "regproc"        -> {WithTransport([NomProc @@ NomMsg EXCEPT !.op = o], t) : o \in OpC, t \in {"min", "prefix"}}
+    [] e = "api"            -> {WithTransport([NomHttp @@ NomMsg EXCEPT !.endpoint = x], t) : x \in EndpointC, t \in {"min", "prefix"}}
     [] e = "dnsreg"         -> {WithTransport([[ccgen |-> "equal"] @@ NomMsg EXCEPT !.source = s, !.regaddr = "absent"], t) :
                                    s \in {"bddns", "dns"}, t \in {"min", "prefix"}}
     [] e = "responder"      -> {[NomDns EXCEPT !.inner = i] : i \in {"bd", "uni"}}
@@ -219,8 +218,12 @@ HttpEnvelopeBad(r) == r.method # "POST" \/ r.path # "exact" \/ r.body \in {"empt
 \* the DNS envelope lets the responder reach decryption / the registrar
 DnsEnvelopeOK(r) == /\ r.qr = "query" /\ r.opcode = "query" /\ r.qd = "one" /\ r.opt = "one" /\ r.optver = "v0"
                     /\ r.optsize \in {"s4096", "s1232", "s65535"} /\ r.optrd # "overrun" /\ r.suffix \in {"right", "mixedcase"}
-                    /\ r.qtype = "txt" /\ r.name \in {"labels", "small", "ptr_suffix"} /\ r.b32 \in {"valid", "lower"}
-DnsPayloadOK(r)  == r.lenprefix = "ok" /\ r.noise = "valid" /\ r.inner \in {"bd", "uni"}
+                    /\ r.qtype = "txt" /\ r.name \in {"labels", "small", "ptr_suffix", "ptr_chain10"} /\ r.b32 \in {"valid", "lower", "badlen"}
+\* the length prefix hands the Noise layer exactly one well-formed message, and what it decrypts to decodes as a wrapper
+\* (a wrapper the registrar refuses is still ANSWERED - with success = false inside the encrypted response)
+DnsPayloadOK(r)  == /\ \/ r.lenprefix = "ok" /\ r.noise = "valid"
+                       \/ r.lenprefix = "smaller" /\ r.noise = "trailing"
+                    /\ r.inner # "garbage"
 
 Guards == {
   "api.bd.payload_nil",        \* registerBidirectional writes payload.RegistrationPayload.X: needs payload != nil
@@ -249,10 +252,11 @@ RegistrarBd(e, r) == \/ e = "api" /\ HttpEnvelopeOK(r) /\ r.endpoint = "bd"
                      \/ e = "regproc" /\ r.op \in {"bd", "bdreq"}
 
 Trigger(g, e, r) ==
-  CASE g = "api.bd.payload_nil"    -> e = "api" /\ HttpEnvelopeOK(r) /\ r.endpoint = "bd" /\ r.payload = "absent" /\ r.clientconf = "newer"
-                                      /\ r.secret \in {"exact32", "len33"}    \* the body must reach the minimum request length
+  CASE g = "api.bd.payload_nil"    -> e = "api" /\ HttpEnvelopeOK(r) /\ r.endpoint = "bd" /\ r.payload = "absent" /\ r.clientconf # "absent"
+                                      /\ r.secret \in {"exact32", "len33"}    \* the body must reach the minimum request length;
+                                      \* without a payload the client's generation reads as 0: any server ClientConf is newer
     [] g = "regproc.bdreq.c2s_nil" -> e \in {"api", "dnsreg", "regproc"} /\ RegistrarBd(e, r) /\ r.payload = "absent"
-                                      /\ (e = "api" => r.clientconf # "newer" /\ r.secret \in {"exact32", "len33"})
+                                      /\ (e = "api" => r.clientconf = "absent" /\ r.secret \in {"exact32", "len33"})
     [] g = "regproc.c2sw.nil"      -> e = "regproc" /\ r.wrapper = "nil" /\ r.op \in {"uni", "c2sw"}
     [] g = "station.rr.ip4_nil"    -> e = "station.ingest" /\ V4Attempt(r) /\ r.rr \in {"present", "empty"} /\ (r.rr = "empty" \/ r.rr_ip4 = "absent")
     [] g = "station.c2s.getters"   -> e = "station.ingest" /\ r.payload = "absent"
